@@ -67,6 +67,7 @@ impl<T> Serialize for BitWriter<T> where T: Fn(u16) -> Result<bool, ExceptionCod
     open spec fn ser_exc(&self, e: ExceptionCode) -> bool {
         exists|i: int| 0 <= i < self.range.inner.count && #[trigger] refused(self.getter, self.range.inner.start, i, e)
     }
+    open spec fn ser_may_reject(&self) -> bool { false }
 //@fn rodbus/src/common/serialize.rs | Serialize for BitWriter<T>::serialize | tags=C01,C02,C07 | r10 r4
 //@entry| lemma_zero_bits();
 //@loop 0|            invariant
@@ -128,6 +129,7 @@ impl<T> Serialize for RegisterWriter<T> where T: Fn(u16) -> Result<u16, Exceptio
     open spec fn ser_exc(&self, e: ExceptionCode) -> bool {
         exists|i: int| 0 <= i < self.range.inner.count && #[trigger] refused_reg(self.getter, self.range.inner.start, i, e)
     }
+    open spec fn ser_may_reject(&self) -> bool { false }
 //@fn rodbus/src/common/serialize.rs | Serialize for RegisterWriter<T>::serialize | tags=C01,C02,C07 | r10 r4
 //@loop 0|            invariant
 //@loop 0|                self.ser_pre(),
